@@ -37,6 +37,9 @@ THEOREMS = [
     "Spydr.Query.stage_spec_direct",
     "Spydr.Query.stage_spec_map",
     "Spydr.Query.stage_spec_pipeline",
+    "Spydr.Query.stage_spec_pipeline_split",
+    "Spydr.Query.stage_spec_pipeline_unindexed",
+    "Spydr.Query.stage_direct_keyed_skips",
     "Spydr.Query.stage_spec_h",
     "Spydr.Query.stage_spec_h_full",
     "Spydr.Query.stage_spec_none",
@@ -68,6 +71,8 @@ SIG_NOCASE = "_value_matches_pattern.is_case_false_glob.case_sensitive"
 SIG_IDENT = "namespace_lookup.default_policy.edif_identifier.not_found"
 SIG_NONUNIQUE = "global_service_lookup.absolute_pattern.nonunique_key.first_only"
 SIG_HIGNORE = "%s.pattern_ignored_for_root"
+SIG_BRACKET = "_value_matches_pattern.glob_bracket.character_class"
+SIG_EDIFCI = "edif_identifier.exact_case_variant.case_sensitive_without_index"
 
 
 def sig_abs_repeat(fn):
@@ -114,7 +119,7 @@ def build_net(spec):
                 del nsm.default
             except AttributeError:
                 pass
-    decorate(nl, rng, spec.get("policy", "DEFAULT"), idents=True)
+    decorate(nl, rng, spec.get("policy", "DEFAULT"), idents=True, brackets=bool(spec.get("brackets")))
     return nl
 
 
@@ -238,7 +243,7 @@ def first_class(nl):
     return out
 
 
-def decorate(nl, rng, policy, idents=True):
+def decorate(nl, rng, policy, idents=True, brackets=False):
     """EDIF.identifier on about half of the named elements (spelling differs from the name; unique
     ignoring case among siblings because the names are), and a user key `uk` with a small value
     pool (deliberately not unique among siblings)."""
@@ -252,6 +257,20 @@ def decorate(nl, rng, policy, idents=True):
                 pass
         if rng.random() < 0.5:
             e["uk"] = rng.choice(UK_POOL)
+    if brackets:
+        # names that contain array-index text (legal under both policies; the EDIF reader produces such
+        # cable and instance names): every pattern family is applied to them as to any other name
+        for lib in nl.libraries:
+            for d in lib.definitions:
+                for lst in (d.ports, d.cables, d.children):
+                    for e in list(lst):
+                        if e.name and rng.random() < 0.25:
+                            new = "%s[%d]" % (e.name, rng.randrange(4))
+                            if new not in set(x.name for x in lst):
+                                try:
+                                    e.name = new
+                                except ValueError:
+                                    pass
 
 
 class World:
@@ -628,8 +647,7 @@ class Case:
                     self.cands[i] = key_of(w, x, i)
                 if i not in ingroup or (self.keyed and self.cands[i][1] is None):
                     self.others.append(self.cands[i])
-            pols = set(w.objs[pi].get(".NS", None) for pi in self.parents)
-            policy = pols.pop() if len(pols) == 1 else ("mixed" if pols else None)
+            policy = w.nl.get(".NS", None)
         elif self.variant == "none":
             self.others = [[i, None] for i in base]
         else:
@@ -661,12 +679,15 @@ class Case:
         x = self.x
         indexed = False
         ci = False
-        if self.variant == "pipeline" and fast:
-            if x["key"] == ".NAME":
-                indexed = self.policy in ("DEFAULT", "EDIF")
-            elif x["key"] == "EDIF.identifier":
-                indexed = self.policy == "EDIF"     # repaired: DEFAULT does not index it -> linear search
-                ci = self.policy == "EDIF"
+        if self.variant == "pipeline":
+            # identifiers under the EDIF policy compare case-insensitively (documented; granted by the
+            # property) -- whether or not an index is there to do it
+            ci = x["key"] == "EDIF.identifier" and self.policy == "EDIF"
+            if fast:
+                if x["key"] == ".NAME":
+                    indexed = self.policy in ("DEFAULT", "EDIF")
+                elif x["key"] == "EDIF.identifier":
+                    indexed = self.policy == "EDIF"     # DEFAULT does not index it -> linear search
         return {"isCase": is_case, "isRe": is_re, "indexed": indexed, "ci": ci}
 
     def values(self):
@@ -709,9 +730,24 @@ def pinned_expected(case, pats, is_case, is_re, fast, defects, extra_others=()):
     cfg = case.cfg(is_case, is_re, fast)
 
     def vm(p, v):
+        if v is None:
+            v = ""
+        if "bracket" in defects and not is_re:
+            # the pinned code hands the pattern to fnmatch: `[` opens a character class
+            import fnmatch
+            if is_case or "nocase" in defects:
+                return fnmatch.fnmatchcase(v, p)
+            return fnmatch.fnmatchcase(v.lower(), p.lower())
         if "nocase" in defects and not is_case and not is_re:
             return py_match(p, v, True, False)
         return py_match(p, v, is_case, is_re)
+
+    def abs_eq_second(v, p):
+        # exact comparison outside the indexed lookup: the code is case-sensitive; the property grants
+        # case-insensitivity for EDIF-policy identifiers
+        if cfg["ci"] and "edifci" not in defects:
+            return (v or "").lower() == p.lower()
+        return (v or "") == p
     out = []
     if case.variant == "found":
         found = list(case.others)
@@ -752,7 +788,7 @@ def pinned_expected(case, pats, is_case, is_re, fast, defects, extra_others=()):
                 def eq(c):
                     if c[1] is None:
                         return False
-                    if cfg["indexed"] and cfg["ci"]:
+                    if cfg["ci"] and (cfg["indexed"] or "edifci" not in defects):
                         return c[1].lower() == p.lower()
                     return c[1] == p
                 hits = [c for c in g if eq(c)]
@@ -779,7 +815,7 @@ def pinned_expected(case, pats, is_case, is_re, fast, defects, extra_others=()):
             names = dedup([(c[1] or "") for c in fresh])
             for p in pats:
                 if is_abs(p, is_case, is_re):
-                    out += [c[0] for c in fresh if (c[1] or "") == p and (c[1] or "") in names]
+                    out += [c[0] for c in fresh if abs_eq_second(c[1], p) and (c[1] or "") in names]
                 else:
                     hit = [n for n in names if vm(p, n)]
                     out += [c[0] for c in fresh if (c[1] or "") in hit]
@@ -791,7 +827,7 @@ def pinned_expected(case, pats, is_case, is_re, fast, defects, extra_others=()):
             cmap = dict(case.cands)
             for p in pats:
                 if is_abs(p, is_case, is_re):
-                    out += [c[0] for c in fresh if (c[1] or "") == p]
+                    out += [c[0] for c in fresh if abs_eq_second(c[1], p)]
                 else:
                     y = [i for i in pool if vm(p, (cmap[i][1] or ""))]
                     out += y
@@ -800,7 +836,7 @@ def pinned_expected(case, pats, is_case, is_re, fast, defects, extra_others=()):
     rem = list(fresh)
     for p in pats:
         if is_abs(p, is_case, is_re):
-            y = [c for c in rem if (c[1] or "") == p]
+            y = [c for c in rem if abs_eq_second(c[1], p)]
         else:
             y = [c for c in rem if vm(p, c[1] or "")]
         out += [c[0] for c in y]
@@ -813,22 +849,26 @@ ATOMS = ["nocase", "ident", "nonunique", "absrepeat", "multiroot", "multiroot+fo
 
 def atom_sig(a, fn):
     return {"nocase": SIG_NOCASE, "ident": SIG_IDENT, "nonunique": SIG_NONUNIQUE, "absrepeat": sig_abs_repeat(fn),
-            "multiroot": sig_multi_root(fn), "multiroot+forcegate": sig_multi_root(fn), "hignore": SIG_HIGNORE % fn}[a]
+            "multiroot": sig_multi_root(fn), "multiroot+forcegate": sig_multi_root(fn), "hignore": SIG_HIGNORE % fn,
+            "bracket": SIG_BRACKET, "edifci": SIG_EDIFCI}[a]
 
 
 def classify(case, pats, is_case, is_re, fast, got):
     """signatures of the smallest set of known defect classes that explains `got` exactly, else None"""
     import itertools
+    br = ["bracket"] if (not is_re and any("[" in p for p in pats)) else []
     if case.variant == "h":
-        atoms = ["hignore", "nocase"] if case.bypass else ["nocase"]
+        atoms = br + (["hignore", "nocase"] if case.bypass else ["nocase"])
     elif case.variant == "pipeline":
-        atoms = ["nocase", "ident", "nonunique"]
+        atoms = br + ["nocase", "ident", "nonunique"]
+        if case.cfg(is_case, is_re, fast)["ci"]:
+            atoms.append("edifci")
         if case.fn in ("get_instances", "get_libraries", "get_definitions"):
             atoms.append("absrepeat")
         if case.fn in ("get_instances", "get_libraries"):
             atoms += ["multiroot", "multiroot+forcegate"]
     else:
-        atoms = ["nocase"]
+        atoms = br + ["nocase"]
     got = sorted(got)
     try:
         if pinned_expected(case, pats, is_case, is_re, fast, set()) == got:
@@ -1056,7 +1096,7 @@ def gen_patterns(case, rng):
         if fam == "re_prefix":
             k = rng.randint(0, len(v))
             return _re.escape(v[:k]) + ".*" + ("." if rng.random() < 0.2 else ""), fam
-        if not wildcard_safe(v):
+        if "*" in v or "?" in v:
             return v, "exact"
         if fam == "prefix":
             k = rng.randint(0, len(v))
@@ -1083,13 +1123,8 @@ def gen_patterns(case, rng):
         elif r < 0.4 and len(pats) > 1:
             rng.shuffle(pats)
         is_case = rng.random() < 0.6
-        if not is_re and not is_case:
-            # wildcard mode: every pattern goes through fnmatch -> only wildcard-safe ones (decision 6)
-            if not all(set(p) & GLOB_UNSAFE == set() for p in pats):
-                is_case = True
-        if not is_re and is_case:
-            if not all((set(p) & GLOB_UNSAFE == set()) or ("*" not in p and "?" not in p) for p in pats):
-                continue
+        # names containing `[` (array indices) are matched like any other name: literal with either
+        # is_case, case-swapped, prefix*, single ? -- no pattern class is avoided
         out.append((pats, is_case, is_re, "+".join(sorted(set(fams)))))
     return out
 
@@ -1133,17 +1168,17 @@ def metamorphic(runner, case, pats, is_case, is_re, fast, rng, res):
             fails.append(("union", [X0] + [input_of(case, [p], is_case, is_re, fast, "none") for p in pats], {"a": base, "union": sorted(u)}))
     # fast lookup on == off (exact patterns whose case matches; the documented EDIF exception aside)
     cfg = case.cfg(is_case, is_re, True)
-    if not cfg["ci"]:
+    if True:
         r = q(pats, is_case, is_re, fa=not fast)
         if r is not None and sorted(set(r)) != sorted(set(base)):
             fails.append(("fast_lookup", [X0, input_of(case, pats, is_case, is_re, not fast, "none")], {"a": base, "b": r}))
     # exact = escaped regex (case sensitive)
-    if is_case and not is_re and all("*" not in p and "?" not in p for p in pats) and not cfg["ci"]:
+    if is_case and not is_re and all("*" not in p and "?" not in p for p in pats) and not cfg["ci"]:   # exact EDIF identifiers ignore case, a regex does not
         r = q([_re.escape(p) for p in pats], True, True)
         if r is not None and sorted(set(r)) != sorted(set(base)):
             fails.append(("exact_vs_regex", [X0, input_of(case, [_re.escape(p) for p in pats], True, True, fast, "none")], {"exact": base, "regex": r}))
     # wildcard = translated regex
-    if not is_re and all(wildcard_safe(p.replace("*", "").replace("?", "")) for p in pats) and not (is_case and cfg["ci"]):
+    if not is_re and not (is_case and cfg["ci"]):
         tp = [_re.escape(p).replace("\\*", ".*").replace("\\?", ".") for p in pats]
         r = q(tp, is_case, True)
         b2 = base
@@ -1151,13 +1186,13 @@ def metamorphic(runner, case, pats, is_case, is_re, fast, rng, res):
             fails.append(("glob_vs_regex", [X0, input_of(case, tp, is_case, True, fast, "none")], {"glob": b2, "regex": r}))
     # case-swapped + is_case=False = original + is_case=False
     sp = [swap_one(p, rng) if not is_re else p for p in pats]
-    if not is_re and all(set(p) & GLOB_UNSAFE == set() for p in pats):
+    if not is_re:
         a = q(pats, False, False)
         b = q(sp, False, False)
         if a is not None and b is not None and sorted(set(a)) != sorted(set(b)):
             fails.append(("case_swap", [input_of(case, sp, False, False, fast, "none"), input_of(case, pats, False, False, fast, "none")], {"orig": a, "swapped": b}))
     # literal with is_case=False == escaped regex with is_case=False == case-swapped literal
-    if not is_re and all("*" not in p and "?" not in p and not (set(p) & GLOB_UNSAFE) for p in pats):
+    if not is_re and all("*" not in p and "?" not in p for p in pats):
         a = q(pats, False, False)
         xa = input_of(case, pats, False, False, fast, "none")
         ep = [_re.escape(p) for p in pats]
@@ -1318,8 +1353,6 @@ def shard_worker(seed, tier, si, nshards, budget_s, net_specs, per_net):
                     # the same patterns under the other case reading, checked against the Spec right after the
                     # original query (and the original once more afterwards): both orders in one process
                     for ic2, ir2 in ((not is_case, is_re), (is_case, is_re)):
-                        if not ir2 and not ic2 and any(set(p) & GLOB_UNSAFE for p in pats):
-                            continue
                         try:
                             r2 = runner.check(case, pats, ic2, ir2, fast, "none")
                         except Exception:
@@ -1409,9 +1442,9 @@ def run(ctx):
                 "filter callback; a case is distinct by (netlist, query); non-trivial when the unfiltered result has >= 2 elements")
     ctx.assumptions = [
         "candidate collection of the get_* functions is not modelled: the base set is the implementation's own result for `*` (DESIGN decision 6)",
-        "wildcard-mode patterns are drawn over values without [ ] \\ ; regex patterns are escaped literals, `.`, `.*`",
+        "only `*` and `?` are wildcards; `[` in a pattern stands for itself (model = code as repaired by docs/fixes/query_glob_bracket_literal.diff; on the pinned code this is the open finding _value_matches_pattern.glob_bracket.character_class); regex patterns are escaped literals, `.`, `.*`",
         "names / values are printable ASCII strings; the empty pattern is not generated",
-        "under the EDIF policy an exact identifier pattern compares case-insensitively only where the registered index answers (documented exception); fast-on/off is not compared there",
+        "identifiers under the EDIF policy compare case-insensitively for exact patterns (granted by the property); the code does so only through the registered index -- fast-on/off IS compared there and the difference is the open finding edif_identifier.exact_case_variant.case_sensitive_without_index",
         "sibling names are unique (C10's invariant); the harness reports the fraction of inputs for which the driver evaluates the stage theorems' hypotheses to true",
     ]
     ctx.partial_notes = []
@@ -1456,7 +1489,8 @@ def run(ctx):
                 specs.append({"kind": "gen", "seed": rng.randrange(10 ** 9), "policy": "EDIF" if r < 0.4 else "DEFAULT",
                               "unnamed": 0.15 if rng.random() < 0.25 else 0.0,
                               "size": "large" if rng.random() < 0.2 else "small",
-                              "twins": rng.random() < 0.35, "refused": rng.random() < 0.3})
+                              "twins": rng.random() < 0.35, "refused": rng.random() < 0.3,
+                              "brackets": rng.random() < 0.35})
         args.append((ctx.seed, ctx.tier, si, nshards, budget, specs, per_net))
     shard.run_shards(ctx, shard_worker, args)
     ht, hf = ctx.hist.get("hyp:True", 0), ctx.hist.get("hyp:False", 0)
